@@ -74,7 +74,9 @@ def run(ctx, tier, res, tag=''):
     shown = 0
     for t, r in zip(ts, recs):
         res.count('functions whose access extent was measured' + tag)
-        mine = [i for i in r['issues'] if i[0] == 'C03']
+        # undefined behaviour and dependence on memory other than the argument are extent matters too
+        mine = [i for i in r['issues'] if i[0] == 'C03' or
+                (i[1] == 'violation' and i[2].endswith((':foreign-state', ':undefined', ':undefined-shift')))]
         und = [i for i in r['issues'] if i[1] == 'undecided']
         if und:
             for (_, _, key, text) in und:
